@@ -306,6 +306,18 @@ func adjacencyFamily() []*Ast {
 		rep(nc(cat(lit('a'), dgt())), 2, 2, false), rep(grp(cat(lit('a'), &Ast{Kind: ADot})), 3, 3, false), rep(nc(alt(cat(lit('a'), lit('b')), cat(lit('a'), lit('c')))), 2, 2, false),
 		cat(rep(nc(cat(lit('a'), dgt())), 2, 3, false), lit('z')), rep(nc(cat(lit('a'), lit('b'), dgt())), 2, -1, true), cat(rep(grp(cat(lit('a'), rep(lit('b'), 0, 1, false))), 2, 2, false), lit('a')),
 	)
+	// stand-alone inline options that change which parentheses capture: (?n)(a)(?<x>b), (?n:(?-n)(a)b)(c), ((?n)(a))(b)
+	bareOpt := func(on, off string, body *Ast) *Ast {
+		return &Ast{Kind: AOptGroup, On: on, Off: off, ForceBare: true, Kids: []*Ast{body}}
+	}
+	named := func(nm string, a *Ast) *Ast { return &Ast{Kind: AGroup, Name: nm, Kids: []*Ast{a}} }
+	out = append(out,
+		bareOpt("n", "", cat(grp(lit('a')), named("x", lit('b')))),
+		cat(&Ast{Kind: AOptGroup, On: "n", Kids: []*Ast{bareOpt("", "n", cat(grp(lit('a')), lit('b')))}}, grp(lit('c'))),
+		cat(grp(bareOpt("n", "", cat(grp(lit('a')), lit('b')))), grp(lit('c')), &Ast{Kind: ABackref, Ref: 2}),
+		cat(lit('a'), bareOpt("n", "", cat(grp(lit('b')), named("y", lit('c')), &Ast{Kind: ABackref, Name: "y"}))),
+		cat(grp(lit('a')), bareOpt("i", "", cat(grp(lit('b')), &Ast{Kind: ABackref, Ref: 1}))),
+	)
 	// an anchor first or last next to a literal (the candidate-position filters of both scan directions key on them)
 	for _, an := range []string{"^", "$", `\A`, `\z`, `\Z`, `\b`, `\B`} {
 		a := func() *Ast { return &Ast{Kind: AAnchor, Name: an} }
